@@ -140,6 +140,18 @@ class Sess:
         self.idx, self.cfg, self.rng, self.k = idx, cfg, rng, knobs
         eng_len = rng.choice(knobs.get("engine_lens", [8, 5, 12, 17, 32]))
         self.engine_id = bytes([0x80, 0, 0x1F, 0x88] + [rng.randrange(256) for _ in range(eng_len - 4)])
+        if rng.random() < knobs.get("structured_engine", 0.25):
+            # engine ids as real agents build them (RFC 3411 formats): long runs of one octet - an IPv6 link-local address,
+            # a zero-padded serial, all-ones filler - i.e. octet patterns that also occur elsewhere in a message
+            # (the zeroed msgAuthenticationParameters placeholder, padding, salts)
+            self.engine_id = bytes([0x80, 0, 0x1F, 0x88]) + rng.choice([
+                bytes([2, 0xFE, 0x80] + [0] * 13 + [1]),
+                bytes([2] + [0] * 15 + [1]),
+                bytes([0] * rng.choice([11, 12, 13, 27]) + [1]),
+                bytes([5] + [0] * rng.choice([12, 16, 26])),
+                bytes([0xFF] * rng.choice([12, 13, 24])),
+                bytes([4]) + b"0" * rng.choice([12, 20]),
+            ])
         boots, tm = self.new_ident()
         self.agent = rigp.Agent(self.handle, engine_id=self.engine_id, boots=boots, etime=tm,
                                 users=[cfg.user_keys()], rng=random.Random(rng.random()))
@@ -535,7 +547,7 @@ def gen_cfg(rng, knobs):
         return rigp.Cfg(ver, community=comm, client=cl)
     auth = rng.choice(knobs.get("auths", [None, "md5", "sha1", "md5", "sha1"]))
     priv = rng.choice(knobs.get("privs", [None, "des", "aes"])) if auth else None
-    user = rng.choice(["u", "user10", "a" * 32, "n" * rng.choice([0, 1, 64, 127, 128, 200])])
+    user = rng.choice(["u", "user10", "a" * 32, "n" * rng.choice([0, 1, 64, 127, 128, 200]), "\x00" * rng.choice([12, 13, 31]) + "z"])
     if user == "" and auth:
         user = "z"
     kt = knobs.get("key_types", ["password", "master", "localized"])
@@ -551,7 +563,7 @@ def gen_cfg(rng, knobs):
         # every session of this process uses the same pass phrases (with whatever digest it draws):
         # a key derived for one digest must never be reused for another
         pw, pw2 = knobs["shared_pw"].encode(), (knobs["shared_pw"] + "P").encode()
-    if auth and priv and rng.random() < knobs.get("same_octets", 0.0):
+    if auth and priv and rng.random() < knobs.get("same_octets", 0.1):
         # the same secret for authentication and privacy (common practice), also across key types: the
         # octets handed over as a privacy *password* equal the octets handed over as the auth *master key*.
         # Each key must still be derived from its own octets under its own key type.
@@ -559,6 +571,11 @@ def gen_cfg(rng, knobs):
             pw2 = C.password_to_key(C.MD5 if auth == "md5" else C.SHA1, pw)
         else:
             pw2 = pw
+        if rng.random() < 0.5:
+            # raw mode: one octet string of the digest's size handed over as both secrets, each under its own key type
+            x = bytes(rng.randrange(33, 127) for _ in range(16 if auth == "md5" else 20))
+            return rigp.Cfg("v3", user=user, auth=auth, priv=priv, auth_kt=akt, priv_kt=pkt, auth_pw=pw, priv_pw=pw2, engine_given=eg,
+                            client=cl, empty_engine=(not eg and rng.random() < 0.3), auth_raw=x, priv_raw=x)
     return rigp.Cfg("v3", user=user, auth=auth, priv=priv, auth_kt=akt, priv_kt=pkt, auth_pw=pw, priv_pw=pw2,
                     engine_given=eg, client=cl, empty_engine=(not eg and rng.random() < 0.3))
 
@@ -603,7 +620,7 @@ def worker(job):
             s.agent.users = {uk.name: uk}
         try:
             if cfg.version == "v3" and cfg.auth_kt != "localized" and cfg.priv_kt != "localized":
-                key = repr(sorted((k, v) for k, v in cfg.to_json().items() if k in ("user", "auth", "priv", "auth_kt", "priv_kt", "auth_pw", "priv_pw")))
+                key = repr(sorted((k, v) for k, v in cfg.to_json().items() if k in ("user", "auth", "priv", "auth_kt", "priv_kt", "auth_pw", "priv_pw", "auth_raw", "priv_raw")))
                 if key not in shared_users:
                     shared_users[key] = rigp.make_user(cfg, s.engine_id)
                 s.user_obj = shared_users[key]
